@@ -13,6 +13,16 @@ Monitors: zero column sums, non-negative off-diagonals, no ground-state transfer
 the eigenbasis (tolerance from the time grid and from the truncated Matsubara series, computed per case), Foerster column
 sums / detailed balance w.r.t. relaxed site energies (2e-2 relative + quadrature floor 5e-3 |H_ab|^2 x envelope of the integrand, T >= 200 K), oddness of the three analytic
 spectral densities, C(-w) = exp(-w/kT) C(w) on every grid point of get_FTCorrelationFunction, tanh/exp oracle relation.
+Further ties (with the static tie): (4) the Foerster reference implementation with the integral replaced by an integer function of all
+five arguments (roles of donor/acceptor energy and reorganisation energy) against Model.C06.foerster_F; (5) the temperature that
+get_FTCorrelationFunction uses for stored / missing / overriding temperatures of one to three components against ft_temperature;
+(6) its values on frequency grids with and without a zero point against ftcf_grid fed numpy's tanh (1e-12 relative plus
+4e-15 |J| (1 + 1/|tanh|) for the cancellation in 1 + 1/tanh at negative frequencies).
+(7) requests for the Fourier-transformed correlation function and the correlation function made directly inside energy-units contexts
+(1/cm, eV, THz, meV) for spectral densities created inside or outside such contexts: equal (1e-11) to the request outside any context
+and, for the former, C(-w) = exp(-w/kT) C(w); the grid cases of (6) are also requested inside such contexts and carry their own
+monitors (float formula, detailed balance on exactly symmetric grids), so that a broken correspondence comes with a failing input.
+Static tie: harness/translate_c06.py (see there).
 """
 import os
 import sys
@@ -108,6 +118,55 @@ def gen_sd(r, k):
             "mode": mode, "Treq": treq}
 
 
+def gen_fo2(r, k):
+    Na = r.choice([2, 3, 4, 5])
+    HH = [[r.randint(-4, 4) for _ in range(Na)] for _ in range(Na)]
+    return {"kind": "fo2", "Na": Na, "HH": HH, "ll": [r.randint(0, 3) for _ in range(Na)]}
+
+
+def gen_ftT(r, k):
+    n = r.choice([1, 1, 2, 2, 3])
+    temps = [77.0, 150.0, 300.0, 300.0]
+    base = r.choice(temps)
+    stored = []
+    for _ in range(n):
+        u = r.random()
+        stored.append(None if u < 0.15 else (base if u < 0.75 else r.choice(temps)))
+    arg = None if r.random() < 0.5 else r.choice(temps)
+    return {"kind": "ftT", "stored": stored, "arg": arg}
+
+
+UNITS = ["1/cm", "eV", "THz", "meV"]
+
+
+def gen_sdu(r, k):
+    """a spectral density created inside some energy-units context (or outside any: internal units) whose Fourier-transformed
+    correlation function / correlation function is requested directly inside another non-internal context"""
+    c = gen_sd(r, k)
+    c["kind"] = "sdu"
+    c["dyadic"] = False
+    c["mode"] = r.choice(["stored", "stored", "override"])
+    c["create_units"] = r.choice(UNITS + ["1/cm", None])
+    c["call_units"] = r.choice(UNITS)
+    c["route"] = r.choice(["ft", "ft", "cf"])
+    return c
+
+
+def gen_ftg(r, k):
+    ftype = r.choice(["OverdampedBrownian", "UnderdampedBrownian", "Underdamped"])
+    p = {"ftype": ftype, "reorg": r.choice([10.0, 30.0, 100.0]) * (0.5 + r.random()), "T": r.choice([20.0, 77.0, 300.0, 500.0])}
+    if ftype == "OverdampedBrownian":
+        p["cortime"] = r.choice([30.0, 100.0, 300.0])
+    else:
+        p["freq"] = r.choice([100.0, 300.0, 800.0])
+        p["gamma"] = r.choice([20.0, 50.0, 150.0])
+    # offset of the grid against zero in units of the step: 0 -> zero is a grid point (L'Hospital branch); a tiny offset below the
+    # code's atol = 1e-7 still takes that branch; anything larger evaluates the formula everywhere
+    return {"kind": "ftg", "params": p, "nh": r.choice([8, 20, 64]), "step": r.choice([2.0 ** -9, 2.0 ** -7, 3e-3]),
+            "offset": r.choice([0.0, 0.0, 0.0, 0.25, 0.5, 1e-6, -1e-6, -1e-6]), "arg": r.choice([None, None, 150.0]),
+            "call_units": r.choice([None, None] + UNITS)}
+
+
 # ------------------------------------------------------------------ exact kernels
 def run_ss(chk, c, items, meta):
     import numpy
@@ -162,6 +221,204 @@ def run_fo(chk, c, items, meta):
     meta.append(c)
     chk.count("fo:exact")
     chk.case(c, True, sample={"case": c, "KK": KK.tolist()})
+
+
+def run_fo2(chk, c, items, meta):
+    """_reference_implementation with _fintegral replaced by an integer function of ALL its arguments (which line-shape function,
+    which energy, which reorganisation energy goes where), against Model.C06.foerster_F"""
+    import numpy
+    from quantarhei.qm.liouvillespace.rates import foersterrates as fm
+    Na = c["Na"]
+    orig = fm._fintegral
+    fm._fintegral = lambda tt, gtd, gta, ed, ea, ld: float(int(gtd[0].real) + 10 * int(gta[0].real) + 100 * ed + 1000 * ea + 10000 * ld)
+    try:
+        gt = numpy.array([[a] for a in range(Na)], dtype=numpy.complex64)
+        KK = fm._reference_implementation(Na, numpy.array(c["HH"], dtype=float), numpy.zeros(1), gt, numpy.array(c["ll"], dtype=float))
+    finally:
+        fm._fintegral = orig
+    if not numpy.array_equal(KK, numpy.round(KK)):
+        raise AssertionError("non-integer result from integer input")
+    items.append("(%d%%nat, %s, %s, %s)" % (Na, cm.mat_lit(c["HH"], cm.zlit), cm.clist([cm.zlit(x) for x in c["ll"]]),
+                                           cm.mat_lit(KK.astype(int).tolist(), cm.zlit)))
+    meta.append(c)
+    chk.count("fo:argument_roles")
+    chk.case(c, True, sample={"case": c, "KK": KK.tolist()})
+
+
+def _qopt(x):
+    return "None" if x is None else "(Some %s)" % cm.qlit(x)
+
+
+def run_ftT(chk, c, items, meta):
+    """which temperature get_FTCorrelationFunction uses (or that it raises), against Model.C06.ft_temperature"""
+    import quantarhei as qr
+    ax = qr.TimeAxis(0.0, 100, 1.0)
+    plist = []
+    for t in c["stored"]:
+        p = {"ftype": "OverdampedBrownian", "reorg": 20.0, "cortime": 100.0}
+        if t is not None:
+            p["T"] = t
+        plist.append(p)
+    with qr.energy_units("1/cm"):
+        sd = qr.SpectralDensity(ax, plist if len(plist) > 1 else plist[0])
+    try:
+        ft = sd.get_FTCorrelationFunction() if c["arg"] is None else sd.get_FTCorrelationFunction(temperature=c["arg"])
+        prm = ft.params if isinstance(ft.params, (list, tuple)) else [ft.params]
+        ts = set(float(p["T"]) for p in prm)
+        if len(ts) != 1:
+            chk.violation("ftcf:temperature_mixed", "components of the result carry the temperatures %s" % sorted(ts), "monitor", c)
+        res = ts.pop()
+        chk.count("ftT:ok")
+    except Exception:
+        res = None
+        chk.count("ftT:raises")
+    if c["arg"] is not None and res != c["arg"]:
+        chk.violation("ftcf:temperature_argument", "get_FTCorrelationFunction(temperature=%r) on stored temperatures %r used %r" %
+                      (c["arg"], c["stored"], res), "monitor", c)
+    items.append("(%s, %s, %s)" % (_qopt(c["arg"]), cm.clist([_qopt(t) for t in c["stored"]]), _qopt(res)))
+    meta.append(c)
+    chk.case(c, True)
+
+
+def _in_units(u):
+    import contextlib
+    import quantarhei as qr
+    return contextlib.nullcontext() if u is None else qr.energy_units(u)
+
+
+def run_ftg(chk, c, items, meta):
+    """the values of get_FTCorrelationFunction on grids with and without a zero point, requested outside or inside an energy-units
+    context, against Model.C06.ftcf_grid fed numpy's tanh; everything is read back outside any context (internal units).
+    Monitors on the same case: the float formula (1 + 1/tanh(w/2kT)) J(w) resp. the symmetric-difference limit at zero, and
+    C(-w) = exp(-w/kT) C(w) on exactly symmetric grids."""
+    import numpy
+    import quantarhei as qr
+    from quantarhei.core.units import kB_int
+    p = dict(c["params"])
+    nh, st = c["nh"], c["step"]
+    ax = qr.FrequencyAxis(-nh * st + c["offset"] * st, 2 * nh, st)
+    with qr.energy_units("1/cm"):
+        sd = qr.SpectralDensity(ax, p)
+    T = p["T"] if c["arg"] is None else c["arg"]
+    cu = c.get("call_units")
+    with _in_units(cu):
+        ft = sd.get_FTCorrelationFunction() if c["arg"] is None else sd.get_FTCorrelationFunction(temperature=c["arg"])
+    vals = numpy.array(ft.data, dtype=float)
+    w = numpy.array(sd.axis.data, dtype=float)
+    d = numpy.array(sd.data, dtype=float)
+    # which branch the code takes is its own comparison |diff| > atol, made in the units current at the call (an oracle of the model)
+    with _in_units(cu):
+        i0, diff = sd.axis.locate(0.0)
+    direct = bool(abs(diff) > 1.0e-7)
+    chk.count("ftg:" + ("direct" if direct else "zero_point") + (":offset" if c["offset"] else ""))
+    chk.count("ftg:called_in:" + str(cu))
+    twokbt = 2.0 * kB_int * T
+    what = "get_FTCorrelationFunction(%s) of SpectralDensity(%s) called inside energy_units(%r)" % (
+        "" if c["arg"] is None else "temperature=%r" % c["arg"], p["ftype"], cu)
+    if not numpy.isfinite(vals).all():
+        chk.violation("ftcf:not_finite", "%s returned non-finite values (grid offset %r)" % (what, c["offset"]), "monitor", c)
+        chk.case(c, False)
+        return
+    if not (1 <= i0 < len(w) - 1):
+        chk.case(c, False)
+        return
+    with numpy.errstate(divide="ignore", invalid="ignore"):
+        th = numpy.tanh(w / twokbt)
+        want = (1.0 + 1.0 / th) * d
+    if not direct:
+        want[i0] = twokbt * (d[i0 + 1] - d[i0 - 1]) / (2.0 * float(sd.axis.step))
+    tolf = 1e-9 * numpy.abs(want) + 1e-13 * numpy.abs(d) * (1.0 + 1.0 / numpy.maximum(numpy.abs(th), 1e-300))
+    badf = numpy.abs(vals - want) > tolf
+    if badf.any():
+        j = int(numpy.argmax(numpy.abs(vals - want) - tolf))
+        chk.violation("ftcf:formula", "%s: value %r at w = %r (internal units) where (1 + coth(w/2kT)) J(w) = %r for T = %g K" %
+                      (what, vals[j], w[j], want[j], T), "monitor", c)
+    if not direct:
+        m = min(i0, len(w) - 1 - i0)
+        pos = numpy.arange(i0 + 1, i0 + m + 1)
+        neg = 2 * i0 - pos
+        if numpy.abs(w[pos] + w[neg]).max() == 0.0:
+            e = numpy.exp(-w[pos] / (twokbt / 2.0))
+            dev = numpy.abs(vals[neg] - e * vals[pos])
+            ref = 1e-9 * numpy.abs(vals[pos]) + 1e-13 * numpy.abs(d[pos]) * (1.0 + 1.0 / numpy.abs(th[pos]))
+            chk.count("ftg:detailed_balance_checked")
+            if (dev > ref).any():
+                j = int(numpy.argmax(dev - ref))
+                chk.violation("ftcf:detailed_balance", "%s: C(-w) = %r, exp(-w/kT) C(w) = %r at w = %r for T = %g K" %
+                              (what, vals[neg][j], (e * vals[pos])[j], w[pos][j], T), "monitor", c)
+    idx = sorted(set([0, 1, i0 - 2, i0 - 1, i0, i0 + 1, i0 + 2, len(w) - 2, len(w) - 1] + list(range(3, len(w), max(1, len(w) // 9)))))
+    idx = [i for i in idx if 0 <= i < len(w)]
+    rows = ["(%d%%nat, %s, %s, %s, %s)" % (i, cm.qlit(w[i]), cm.qlit(d[i]), cm.qlit(th[i]) if th[i] != 0.0 else cm.qlit(1.0), cm.qlit(vals[i])) for i in idx]
+    items.append("(%s, %s, %d%%nat, %s, %s)" % (cm.qlit(twokbt), cm.qlit(float(sd.axis.step)), i0, "true" if direct else "false", cm.clist(rows)))
+    meta.append(c)
+    chk.case(c, True)
+
+
+def run_sdu(chk, c):
+    """requests made directly inside a non-internal energy-units context, for objects created inside / outside such contexts:
+    the result, read in internal units, must be the one obtained without any context, and obey C(-w) = exp(-w/kT) C(w)"""
+    import numpy
+    import quantarhei as qr
+    from quantarhei.core.units import kB_int, conversion_facs_energy as fac
+    p = dict(c["params"])
+    cr, cu = c["create_units"], c["call_units"]
+    conv = fac["1/cm"] / (1.0 if cr is None else fac[cr])       # the nominal values are in 1/cm
+    for key in ("reorg", "freq", "gamma"):
+        if key in p:
+            p[key] = p[key] * conv
+    T0 = p["T"]
+    Tj = T0 if c["mode"] == "stored" else c["Treq"]
+    targ = None if c["mode"] == "stored" else Tj
+    ax = qr.TimeAxis(0.0, c["Nt"], c["dt"])
+
+    def make_sd():
+        with _in_units(cr):
+            return qr.SpectralDensity(ax, dict(p))
+
+    def request(sd):
+        if c["route"] == "ft":
+            return sd.get_FTCorrelationFunction() if targ is None else sd.get_FTCorrelationFunction(temperature=targ)
+        return sd.get_CorrelationFunction() if targ is None else sd.get_CorrelationFunction(temperature=targ)
+    chk.count("sdu:%s:created_in:%s" % (c["route"], cr))
+    chk.count("sdu:called_in:%s" % cu)
+    what = "%s of SpectralDensity(%s) created inside energy_units(%r), requested inside energy_units(%r)" % (
+        "get_FTCorrelationFunction" if c["route"] == "ft" else "get_CorrelationFunction", p["ftype"], cr, cu)
+    ref = request(make_sd())
+    sd1 = make_sd()
+    with _in_units(cu):
+        got = request(sd1)
+    r0 = numpy.array(ref.data)
+    g0 = numpy.array(got.data)
+    sc = float(numpy.abs(r0).max()) + 1e-300
+    if g0.shape != r0.shape or not numpy.isfinite(g0).all() or numpy.abs(g0 - r0).max() > 1e-11 * sc:
+        j = int(numpy.argmax(numpy.abs(g0 - r0))) if g0.shape == r0.shape else 0
+        chk.violation("units_context:" + c["route"], "%s: value %r at axis point %r (internal units) where the same request outside any "
+                      "context gives %r (T = %g K)" % (what, g0.flat[j] if g0.size else None, float(numpy.array(got.axis.data)[j]), r0.flat[j], Tj),
+                      "monitor", c)
+    if numpy.abs(numpy.array(got.axis.data) - numpy.array(ref.axis.data)).max() > 0.0:
+        chk.violation("units_context:axis", "%s: the axis of the result differs from the one obtained outside any context" % what, "monitor", c)
+    if c["route"] == "ft":
+        w = numpy.array(got.axis.data, dtype=float)
+        f = numpy.real(g0).astype(float)
+        i0 = int(numpy.argmin(numpy.abs(w)))
+        m = min(i0, len(w) - 1 - i0)
+        pos = numpy.arange(i0 + 1, i0 + m + 1)
+        neg = 2 * i0 - pos
+        kT = kB_int * Tj
+        sel = w[pos] < 20.0 * kT
+        e = numpy.exp(-w[pos] / kT)
+        # the grid is symmetric up to rounding of start + k*step: allow for the slope of C(w) times the asymmetry (finite differences)
+        asy = numpy.abs(w[pos] + w[neg])
+        slope = numpy.abs(numpy.gradient(f, w))
+        tol = 1e-9 * numpy.abs(f[pos]) + 4.0 * asy * (numpy.maximum(slope[pos], slope[neg]) + numpy.abs(f[pos]) / kT)
+        dev = numpy.abs(f[neg] - e * f[pos])
+        if (dev[sel] > tol[sel] + 1e-300).any():
+            j = int(numpy.argmax((dev - tol) * sel))
+            chk.violation("ftcf:detailed_balance", "%s: C(-w) = %r, exp(-w/kT) C(w) = %r at w = %r for the requested T = %g K" %
+                          (what, f[neg][j], (e * f[pos])[j], w[pos][j], Tj), "monitor", c)
+    elif got.get_temperature() != Tj:
+        chk.violation("sd2cf:temperature", "%s reports temperature %r, requested %r" % (what, got.get_temperature(), Tj), "monitor", c)
+    chk.case({k: v for k, v in c.items() if not k.startswith("_")}, True)
 
 
 # ------------------------------------------------------------------ real aggregates
@@ -523,6 +780,7 @@ def run_sd(chk, c):
 def run(chk, cases):
     import time
     ss_items, ss_meta, fo_items, fo_meta, rf_items, rf_meta = [], [], [], [], [], []
+    extra = {"fo2": ([], []), "ftT": ([], []), "ftg": ([], [])}
     for c in cases:
         try:
             if c["kind"] == "ss":
@@ -535,6 +793,10 @@ def run(chk, cases):
                 run_foe(chk, c)
             elif c["kind"] == "sd":
                 run_sd(chk, c)
+            elif c["kind"] == "sdu":
+                run_sdu(chk, c)
+            elif c["kind"] in extra:
+                {"fo2": run_fo2, "ftT": run_ftT, "ftg": run_ftg}[c["kind"]](chk, c, *extra[c["kind"]])
         except Exception as e:
             import traceback
             chk.violation("%s:exception" % c["kind"], "case raised %r: %s" % (e, traceback.format_exc()[-500:]), "monitor",
@@ -554,10 +816,17 @@ def run(chk, cases):
         shards.append(cm.HEADER + imp + "Definition cs : list case_rf := %s.\nEval vm_compute in (bad (rf_agrees (Qmake 1 100000000000)) cs).\n"
                       % cm.clist(rf_items[k:k + CR]))
         index.append(("rf", k, CR, rf_meta))
+    for kind, typ, fn, ch in (("fo2", "case_fo2", "fo2_agrees", CH), ("ftT", "case_ftT", "ftT_agrees", CH),
+                              ("ftg", "case_ftg", "(ftg_agrees (Qmake 1 1000000000000))", 40)):
+        its, mt = extra[kind]
+        for k in range(0, len(its), ch):
+            shards.append(cm.HEADER + imp + "Definition cs : list %s := %s.\nEval vm_compute in (bad %s cs).\n" % (typ, cm.clist(its[k:k + ch]), fn))
+            index.append((kind, k, ch, mt))
     t0 = time.time()
     results = cm.coq_eval(PID, shards)
     chk.notes.append("coq evaluation of %d shards: %.1f s" % (len(shards), time.time() - t0))
-    names = {"ss": "ssRedfieldRateMatrix", "fo": "foerster_reference_implementation", "rf": "RedfieldRateMatrix"}
+    names = {"ss": "ssRedfieldRateMatrix", "fo": "foerster_reference_implementation", "rf": "RedfieldRateMatrix",
+             "fo2": "foerster_argument_roles", "ftT": "ftcf_temperature_selection", "ftg": "ftcf_grid_values"}
     for (kind, k, ch, meta), (rc, out) in zip(index, results):
         if rc != 0:
             chk.violation("correspondence:coq_error", "coqc failed on %s cases: %s" % (kind, out[-600:]), "correspondence",
@@ -584,8 +853,14 @@ def main():
         "golden-rule clause is VALIDATED: |K - sum_n c_na^2 c_nb^2 (1+coth) J_n| <= sum_n c_na^2 c_nb^2 (Matsubara truncation remainder "
         "+ 3 dt^2/6 |Re C'(0)| + 2e-3 |value|), tensor elements 3e-3 relative more (spline quadrature over the finite time axis)",
         "Foerster detailed balance w.r.t. E_n - lambda_n is VALIDATED (T >= 200 K, dt = 0.5 fs, as many Matsubara terms as the step resolves): |K_up - exp(-|dE|/kT) K_down| <= 2e-2 max(|K_up|, exp(-|dE|/kT)|K_down|) + EPS |H_ab|^2 E, E = 2 int |exp(-g_d-g_a)| dt the envelope of the integrand (rate at perfect resonance), EPS = 5e-3 = 3 x the largest quadrature error measured (1.7e-3 E); far-tail rates below the floor EPS |H_ab|^2 E, including slightly negative ones, are inside the quadrature error; a negative rate beyond the floor is flagged",
-        "all baths at one temperature (the code reads T from component 0)"]
+        "all baths at one temperature (the code reads T from component 0)",
+        "static tie: ssRedfieldRateMatrix, _set_rates, the Foerster reference implementation, the analytic spectral densities and "
+        "get_FTCorrelationFunction are matched statement by statement against templates and their arithmetic content is translated "
+        "(harness/translate_c06.py, skeleton lemmas in Proofs/C06gen.v); the translator is trusted to read the ast faithfully; the "
+        "@implementation dispatch from rates/redfieldrates.py to implementations/python is not translated (exercised by the wrapper cases)"]
     chk.prove()
+    import translate
+    translate.static_tie(cm, chk, PID, cm.REPO)      # second, static tie: model regenerated from the current source
     if args.replay:
         rep = json.load(open(args.replay))
         cases = [rep["input"]] if isinstance(rep.get("input"), dict) and "kind" in rep["input"] else []
@@ -617,6 +892,15 @@ def main():
             sy["matsubara"] = max(10, int(2.0 / (2.0 * math.pi * 1.3092e-4 * sy["T"] * sy["dt"])))
             cases.append({"kind": "foe", "sys": sy})
         cases += [gen_sd(r, k) for k in range(nsd)]
+        r2 = cm.rng(PID + "/additions")        # separate stream: the cases above stay what they were
+        nfo2, nftT, nftg, nsdu = (60, 60, 50, 40) if args.tier == "quick" else (600, 400, 300, 300)
+        cases += [{"kind": "ftT", "stored": [300.0, None], "arg": 77.0}, {"kind": "ftT", "stored": [300.0, 200.0], "arg": None},
+                  {"kind": "ftT", "stored": [None], "arg": None}]
+        cases += [gen_fo2(r2, k) for k in range(nfo2)] + [gen_ftT(r2, k) for k in range(nftT)] + [gen_ftg(r2, k) for k in range(nftg)]
+        r3 = cm.rng(PID + "/units")
+        cases.append({"kind": "ftg", "params": {"ftype": "OverdampedBrownian", "reorg": 30.0, "cortime": 100.0, "T": 300.0}, "nh": 64,
+                      "step": 2.0 ** -9, "offset": 0.0, "arg": None, "call_units": "1/cm"})
+        cases += [gen_sdu(r3, k) for k in range(nsdu)]
     run(chk, cases)
     chk.finish()
 
